@@ -1,7 +1,27 @@
-import G3D.Proofs.MethodsTieFlat
-import G3D.Proofs.MethodsTiePolygon
-import G3D.Proofs.MethodsTiePolyhedron
 import G3D.Proofs.MethodsTieCalc
+import G3D.Proofs.MethodsTieFlatComplete
+import G3D.Proofs.MethodsTieFlatCtor
+import G3D.Proofs.MethodsTieFlatEffects
+import G3D.Proofs.MethodsTieFlatEq
+import G3D.Proofs.MethodsTieFlatMember
+import G3D.Proofs.MethodsTieFlatMove
+import G3D.Proofs.MethodsTiePolygonCenter
+import G3D.Proofs.MethodsTiePolygonComplete
+import G3D.Proofs.MethodsTiePolygonCtor
+import G3D.Proofs.MethodsTiePolygonEffects
+import G3D.Proofs.MethodsTiePolygonEq
+import G3D.Proofs.MethodsTiePolygonLength
+import G3D.Proofs.MethodsTiePolygonMember
+import G3D.Proofs.MethodsTiePolygonMove
+import G3D.Proofs.MethodsTiePolygonSegments
+import G3D.Proofs.MethodsTiePolygonShared
+import G3D.Proofs.MethodsTiePolyhedronComplete
+import G3D.Proofs.MethodsTiePolyhedronCtor
+import G3D.Proofs.MethodsTiePolyhedronEffects
+import G3D.Proofs.MethodsTiePolyhedronHelpers
+import G3D.Proofs.MethodsTiePolyhedronMember
+import G3D.Proofs.MethodsTiePolyhedronMove
+import G3D.Proofs.MethodsTiePolyhedronShared
 /-! # The extracted METHOD bodies of the geometry classes agree with the hand-written model
 
     `G3D.Extracted.m_<Class>_<method>` is the statement-by-statement translation of the Python method
@@ -10,8 +30,18 @@ import G3D.Proofs.MethodsTieCalc
     `G3D.Model.PyRt` + `G3D.Model.PyRtM`; the definitions of `G3D.Model.{Flat,Body,Move,Move2,PlaneForms,InterFlat,InterBody}`
     are the hand-written model that all proofs are about.  One theorem per method and operand kind, for ALL operands of
     that kind; `new_<Class>_*` tie the constructors (`__init__` on the blank attribute record, then the packed object),
-    `*_effects_eq` pin which references are stored / returned / mutated in place.
+    `*_effects_eq` pin which references are stored / returned / mutated in place.  `*_raw` theorems state the exact
+    behaviour of the code including the exceptions the (total) model functions do not have; the `*_eq` corollaries are the
+    model equations under the well-formedness condition that excludes those exceptions.
+    Inner calls of other methods (`x in self.line`, `Line(a, b)`, `p.move(v)`, `self.parallel(o)`) are the model's functions
+    (`pyInM`, `pyLineM`, ..): each is tied by its own theorem, so together they cover the call tree.
 
-    Four modules that do NOT import each other (fault isolation): `MethodsTieFlat`, `MethodsTiePolygon`,
-    `MethodsTiePolyhedron`, `MethodsTieCalc` (`parallel` / `orthogonal` of calc/angle.py); shared lemmas in `MethodsTieBase`.  This file only collects them.
-    Trusted readings and the deviations found: header of `G3D.Model.PyRtM`, headers of the three modules, DESIGN. -/
+    FAULT ISOLATION: one generated file per class group, but the ties are split BY ROLE into modules that do not import each
+    other — `MethodsTie<Group>{Ctor,Member,Eq,Move,Effects,Complete}` (+ `MethodsTiePolygonLength`, `MethodsTieCalc`) — so a
+    change of one method breaks only the module(s) of its role (and `..Effects` when its stored references change,
+    `..Complete` when it cannot be translated).  The only cross-role imports are the real call dependencies:
+    `MethodsTiePolygonCenter` (`_get_center_point`, called by `__init__` and `move`), `MethodsTiePolygonSegments`
+    (`segments`, called by `length`), `MethodsTiePolyhedronHelpers` (`_get_center_point`, `_check_normal`, `_euler_check`,
+    called by `__init__` and `move`).  `MethodsTieBase`, `MethodsTie{Polygon,Polyhedron}Shared` contain no extracted
+    definition and never break when a method changes.  This file only collects the modules.
+    Trusted readings and the deviations found: header of `G3D.Model.PyRtM`, DESIGN. -/
